@@ -198,6 +198,24 @@ impl Game {
             }
         }
 
+        // A castling right presupposes its king and rook on their home squares:
+        // the move generator only looks at the right, not at the pieces
+        let stands = |position: Position, piece_type: PieceType, owner: Player| {
+            board[position.as_usize()]
+                .is_some_and(|piece| piece.piece_type == piece_type && piece.owner == owner)
+        };
+        for (right, rook, owner) in [
+            (state.white_king_castling(), Position::WHITE_KING_ROOK, Player::White),
+            (state.white_queen_castling(), Position::WHITE_QUEEN_ROOK, Player::White),
+            (state.black_king_castling(), Position::BLACK_KING_ROOK, Player::Black),
+            (state.black_queen_castling(), Position::BLACK_QUEEN_ROOK, Player::Black),
+        ] {
+            let king = Position::new_assert(rook.row(), 4);
+            if right && !(stands(king, PieceType::King, owner) && stands(rook, PieceType::Rook, owner)) {
+                bail!("Castling right without king and rook on their home squares");
+            }
+        }
+
         let Some(en_passant) = terms.next() else {
             bail!("Missing en passant");
         };
